@@ -2,6 +2,13 @@
 PENDING_REASON = "static rules designed in DESIGN.md §3 but the check is not registered yet (under construction)"
 
 CLAIMS = {
+    "C13": {
+        "technique": "static analysis: dominance of the op-cap truncation over the Plan constructor, guard facts of the RequestRetrieve constructor and intent assignments, call-site/loop checks for the single refinement, return provenance through the token truncation, effect analysis of the planner, may-raise (narrowing-guard) analysis of the sanitiser, schema-constant and key-set agreement",
+        "text": "Decides: deliberate and rag_once hand Plan() an op list that passed `ops[:min(turn cap, slice cap)]` with nothing appended afterwards and a leading unconditional Speak op; RequestRetrieve is built only under s_max < tau_low and the intent "
+                "follows the two-threshold cascade; run_turn refines at one non-loop site under requested_retrieve and max_rag_loops>=1 and rag_once retrieves once; speak/llm_speak return the first component of _truncate_to_tokens(text, max_tokens) on every path; "
+                "deliberate is effect-free; every operation the sanitiser applies to an untrusted value is behind an isinstance narrowing or try/except, constant-key subscripts follow a presence check; limits are the imported schema constants measured on the raw returned values and key sets equal the schema's.",
+        "note": "Not decided: threshold monotonicity as an input/output law; arbitrary LLM behaviour; whether a regex substitution of _sanitize_utterance can lengthen an utterance (UNDECIDED, listed); run_turn's empty-utterance placeholder returns the input text (by design, not claimed).",
+    },
     "C20": {
         "technique": "static analysis: exception-escape over a frozen table of declared fail-soft call sites (lexical catch-all enclosure or total callee, handler-cannot-raise), handler neutrality w.r.t. canonical streams, handler fall-through and reachability of the final turn record",
         "text": "Decides, for each declared optional subsystem site (boot snapshot load, GEL merge/split/promotion, reflection compute/write/telemetry, LLM adapter build, hybrid/fusion/MMR/shadow trace in apply_quality, T3 trace, "
